@@ -129,7 +129,7 @@ def _table_sig(table):
 class load_offsets:
     name = "timezone_parser._load_offsets"
     func = "dateparser.timezone_parser._load_offsets"
-    props = ["C19"]
+    props = ["C19", "C11"]  # C11: the table a rebuild produces is the table the sources define
     concrete_samples = 1  # no symbolic inputs: one concrete evaluation per case
 
     @staticmethod
